@@ -14,6 +14,7 @@ from ..core import operand_locals, def_sites
 from ..expr import (E, expr_of_operand, call_arg_exprs, evaluate, decisive_edges, atoms_of)
 from ..engines import OK, ERR
 from . import common as cm
+from ..inline import inline
 
 LIBC = {"libc::mprotect": 3, "libc::mlock": 2, "libc::munlock": 2, "libc::madvise": 3}
 PROT = {0: "NoAccess", 1: "ReadOnly", 3: "ReadWrite"}
@@ -66,19 +67,90 @@ def same_slice(f, e_ptr, e_len):
     return True, "as_ptr(%s), len(%s)" % (f.local_name(r1[0]), f.local_name(r2[0]))
 
 
+def _libc_kinds(f):
+    kinds = []
+    for c in f.calls():
+        if c.path in LIBC:
+            ex = call_arg_exprs(c)
+            flag = evaluate(ex[2], {}) if len(ex) > 2 else None
+            kinds.append((c, c.path.split("::")[-1], flag))
+    return kinds
+
+
+def _flags_const(kinds):
+    return all(isinstance(flag, int) for c, name, flag in kinds if LIBC[c.path] == 3)
+
+
 def wrappers(prog):
-    """crate functions that directly call a libc memory function -> classification"""
+    """crate functions that issue a libc memory call with a *constant* flag -> classification.
+    A function that calls libc with a flag it receives as a parameter is a generic helper, not a
+    wrapper: its callers are classified on the view with the helper folded in (so
+    `dryoc_mprotect_readonly` stays the ReadOnly wrapper whether it calls mprotect itself or through
+    a shared `unix_mprotect(data, prot)`)."""
     out = {}
+    views = {}
+    generic = set()
     for f in prog.fns:
-        kinds = []
-        for c in f.calls():
-            if c.path in LIBC:
-                ex = call_arg_exprs(c)
-                flag = evaluate(ex[2], {}) if len(ex) > 2 else None
-                kinds.append((c, c.path.split("::")[-1], flag))
+        kinds = _libc_kinds(f)
         if kinds:
-            out[f.key] = kinds
+            if _flags_const(kinds):
+                out[f.key] = kinds
+                views[f.key] = f
+            else:
+                generic.add(f.key)
+    for _ in range(3):
+        if not generic:
+            break
+        nxt = set()
+        for hk in list(generic):
+            for g in prog.callers(prog.by_key[hk]):
+                if g.key in out or g.key in generic:
+                    continue
+                v = inline(prog, g, pick=lambda call, t: t.key in generic)
+                kinds = _libc_kinds(v)
+                if kinds and _flags_const(kinds):
+                    out[g.key] = kinds
+                    views[g.key] = v
+                elif kinds:
+                    nxt.add(g.key)
+        generic |= nxt
+    prog._c14_views = views
+    prog._c14_generic = generic
     return out
+
+
+def rec_of(prog):
+    if getattr(prog, "_c14_rec_cache", None) is None:
+        prog._c14_rec_cache = record_info(prog)
+        if prog._c14_rec_cache is None:
+            from ..core import AnchorError
+            raise AnchorError("runtime record of protected regions (struct with lock-mode and protect-mode fields)")
+    return prog._c14_rec_cache
+
+
+def record_info(prog):
+    """The runtime record of a protected region, found by shape (not by name): the ADT with one field
+    whose type is an enum with variants {Locked, Unlocked} and one whose type is an enum with variants
+    {ReadOnly, ReadWrite, NoAccess} (the variant names mirror the public marker types)."""
+    enums = {}
+    for a in prog.adts.values():
+        names = [v["name"] for v in a["variants"]]
+        if set(names) == {"Locked", "Unlocked"}:
+            enums[a["path"]] = ("lock", names)
+        elif set(names) == {"ReadOnly", "ReadWrite", "NoAccess"}:
+            enums[a["path"]] = ("protect", names)
+    for a in prog.adts.values():
+        if len(a["variants"]) != 1:
+            continue
+        got = {}
+        for fd in a["variants"][0]["fields"]:
+            t = fd["ty"].get("path") or fd["ty"]["t"]
+            if t in enums:
+                got[enums[t][0]] = (fd["name"], enums[t][1])
+        if set(got) == {"lock", "protect"}:
+            return {"record": a["path"], "short": a["path"].split("::")[-1], "lock_field": got["lock"][0], "protect_field": got["protect"][0],
+                    "lock_variants": got["lock"][1], "protect_variants": got["protect"][1]}
+    return None
 
 
 def classify(kinds):
@@ -100,8 +172,12 @@ def check(ctx, rep, cfg):
     tag = "" if cfg == "full" else "[%s]" % cfg
     ws = wrappers(prog)
     n_sites = 0
+    rec = record_info(prog)
+    if rec is None:
+        rep.violation("ANCHOR", "runtime record" + tag, "no struct with a {Locked,Unlocked} field and a {ReadOnly,ReadWrite,NoAccess} field found")
+        return
     for k, kinds in sorted(ws.items()):
-        f = prog.by_key[k]
+        f = prog._c14_views[k]
         for c, name, flag in kinds:
             n_sites += 1
             ex = call_arg_exprs(c)
@@ -160,12 +236,12 @@ def transitions(rep, prog, ws, tag):
                 decl = pm_marker.split("::")[-1]
                 rep.ob("MODE", inst + "|result-type", decl == mode,
                        "transition returns Protected<_, %s, _> and calls the wrapper whose mprotect flag means %s" % (decl, mode), loc=c.loc())
-                field = "pm"
+                field = rec_of(prog)["protect_field"]
             else:
                 decl = lm_marker.split("::")[-1]
                 rep.ob("MODE", inst + "|result-type", decl == mode,
                        "transition returns Protected<_, _, %s> and calls the %s wrapper" % (decl, "mlock" if mode == "Locked" else "munlock"), loc=c.loc())
-                field = "lm"
+                field = rec_of(prog)["lock_field"]
             # recorded runtime mode
             stores = []
             for bb, i, s in g.assigns():
@@ -212,6 +288,42 @@ def prog_parse(t):
     return ty_text(p[1][0]), ty_text(p[1][1]), ty_text(p[1][2])
 
 
+def mode_edges(g, field, variants, variant, when_equal):
+    """Edges of g taken exactly when the record's `field` == `variant` (when_equal) or != `variant`:
+    through PartialEq::eq/ne against the variant literal, or through a switch on the field's
+    discriminant (match / if let)."""
+    out = []
+    idx = variants.index(variant)
+    for b in range(g.n):
+        t = g.blocks[b]["t"]
+        if t["k"] != "switch":
+            continue
+        e = expr_of_operand(g, t["x"])
+        arms = {v: tb for v, tb in t["arms"]}
+        if e.k == "call" and e.a.path in ("std::cmp::PartialEq::ne", "std::cmp::PartialEq::eq"):
+            ax = call_arg_exprs(e.a)
+            if any(a.k == "field" and a.b.split(".")[-1] == field for a in ax) and any(a.k == "agg" and a.b == variant for a in ax):
+                is_ne = e.a.path.endswith("::ne")
+                eq_t = arms.get(0, t["otherwise"]) if is_ne else t["otherwise"]
+                ne_t = t["otherwise"] if is_ne else arms.get(0, t["otherwise"])
+                if eq_t != ne_t:
+                    out.append((b, eq_t if when_equal else ne_t))
+        elif e.k == "discr" and e.a.k == "field" and e.a.b.split(".")[-1] == field:
+            targets = {}
+            for i in range(len(variants)):
+                targets[i] = arms.get(i, t["otherwise"])
+            eq_t = targets[idx]
+            others = {tb for i, tb in targets.items() if i != idx}
+            if when_equal:
+                if eq_t not in others:
+                    out.append((b, eq_t))
+            else:
+                for tb in others:
+                    if tb != eq_t:
+                        out.append((b, tb))
+    return out
+
+
 def drop_order(rep, prog, ws, tag):
     drops = [i for i in prog.impls if i.get("trait") == "std::ops::Drop" and i["self_ty"]["t"].startswith("protected::Protected<")]
     rep.ob("DROP", "Drop impl for Protected" + tag, len(drops) == 1, "%d Drop impl(s) for Protected" % len(drops))
@@ -245,40 +357,14 @@ def drop_order(rep, prog, ws, tag):
         o2 = ul[0].bb in g.reachable_from_after(z.bb) and z.bb not in g.reachable_from_after(ul[0].bb)
         rep.ob("DROP", inst + "|order", o1 and o2,
                "unprotect(rw) %s wipe %s munlock" % ("→" if o1 else "✗", "→" if o2 else "✗"), loc=z.loc())
-        # bypassing the unprotect is only possible on the `pm == ReadWrite` edge
-        bypass_edges = []
-        for b in range(g.n):
-            t = g.blocks[b]["t"]
-            if t["k"] != "switch":
-                continue
-            e = expr_of_operand(g, t["x"])
-            if e.k == "call" and e.a.path in ("std::cmp::PartialEq::ne", "std::cmp::PartialEq::eq"):
-                ax = call_arg_exprs(e.a)
-                fields = [a for a in ax if a.k == "field" and a.b.endswith("pm")]
-                aggs = [a for a in ax if a.k == "agg" and a.b == "ReadWrite"]
-                if fields and aggs:
-                    is_ne = e.a.path.endswith("::ne")
-                    arms = {v: tb for v, tb in t["arms"]}
-                    # edge taken when pm == ReadWrite
-                    tgt = arms.get(0, t["otherwise"]) if is_ne else t["otherwise"]
-                    bypass_edges.append((b, tgt))
+        # bypassing the unprotect is only possible on the `recorded protect mode == ReadWrite` edge
+        rec = rec_of(prog)
+        bypass_edges = mode_edges(g, rec["protect_field"], rec["protect_variants"], "ReadWrite", True)
         reach = g.reachable(0, cut_blocks=[c.bb for c in rw], cut_edges=bypass_edges)
         rep.ob("DROP", inst + "|unprotect-before-wipe", z.bb not in reach,
                "every path to the wipe passes the read-write unprotect or the `recorded mode == ReadWrite` edge", loc=z.loc())
         # munlock may only be skipped when the recorded lock mode is not Locked
-        skip_edges = []
-        for b in range(g.n):
-            t = g.blocks[b]["t"]
-            if t["k"] != "switch":
-                continue
-            e = expr_of_operand(g, t["x"])
-            if e.k == "call" and e.a.path in ("std::cmp::PartialEq::ne", "std::cmp::PartialEq::eq"):
-                ax = call_arg_exprs(e.a)
-                if any(a.k == "field" and a.b.endswith("lm") for a in ax) and any(a.k == "agg" and a.b == "Locked" for a in ax):
-                    is_ne = e.a.path.endswith("::ne")
-                    arms = {v: tb for v, tb in t["arms"]}
-                    tgt = t["otherwise"] if is_ne else arms.get(0, t["otherwise"])   # edge when lm != Locked
-                    skip_edges.append((b, tgt))
+        skip_edges = mode_edges(g, rec["lock_field"], rec["lock_variants"], "Locked", False)
         rets = [b for b in range(g.n) if g.blocks[b]["t"]["k"] == "return"]
         after = g.reachable_from_after(z.bb, cut_blocks=[c.bb for c in ul], cut_edges=skip_edges)
         rep.ob("DROP", inst + "|unlock-after-wipe", not any(r in after for r in rets),
@@ -295,6 +381,19 @@ def guard_pages(rep, prog, ws, tag):
     if not al or not de:
         rep.violation("GUARD", "allocator bodies" + tag, "allocate/deallocate bodies missing")
         return
+
+    # helpers between the allocator and the wrappers (e.g. a per-guard-page function) are folded in;
+    # the wrappers themselves and pure helpers that reach no wrapper (page rounding) stay calls
+    reach_w = {}
+
+    def on_the_way(call, t):
+        if t.key in ws:
+            return False
+        if t.key not in reach_w:
+            reach_w[t.key] = any(k in ws for k in prog.reach_fns([t]))
+        return reach_w[t.key]
+    al = inline(prog, al, pick=on_the_way)
+    de = inline(prog, de, pick=on_the_way)
 
     def regions(g, want_kind):
         out = []
@@ -430,19 +529,20 @@ def drop_discipline(rep, prog, tag):
     bad = []
     n = 0
     for f in prog.fns:
-        if not any(("InternalData" in l["t"]) for l in f.locals):
+        RN = rec_of(prog)["short"]
+        if not any((RN in l["t"]) for l in f.locals):
             continue
         n += 1
         for b in range(f.n):
             t = f.blocks[b]["t"]
-            if t["k"] == "drop" and "InternalData<" in t.get("place_ty", "") and not t["place_ty"].startswith("&"):
+            if t["k"] == "drop" and (RN + "<") in t.get("place_ty", "") and not t["place_ty"].startswith("&"):
                 bad.append((f, b, t["place_ty"]))
             if t["k"] == "call":
                 c = f.call_at(b)
-                if c.path in ("std::mem::drop", "core::mem::drop", "std::mem::forget") and "InternalData<" in c.full:
+                if c.path in ("std::mem::drop", "core::mem::drop", "std::mem::forget") and (RN + "<") in c.full:
                     bad.append((f, b, c.full))
     rep.ob("DROP-DISCIPLINE", "no crate function drops a region's storage record" + tag, not bad,
-           "%d functions handle InternalData; drops outside Protected::drop: %s" % (n, [(f.path[:60], f.loc(b)) for f, b, _ in bad][:4]),
+           "%d functions handle the storage record; drops outside Protected::drop: %s" % (n, [(f.path[:60], f.loc(b)) for f, b, _ in bad][:4]),
            loc=bad[0][0].loc(bad[0][1]) if bad else None)
 
 
@@ -453,30 +553,33 @@ def record_discipline(rep, prog, tag):
     Every other mode is reached through a transition (MODE rule)."""
     from ..expr import expr_of_operand, deep_repr
     n_rec = 0
+    rec = rec_of(prog)
+    RN = rec["short"]
     for f in prog.fns:
         imp = prog.fn_impl(f)
-        own_clone = bool(imp and imp.get("trait") == "std::clone::Clone" and imp["self_ty"].get("path") == "protected::int::InternalData")
+        own_clone = bool(imp and imp.get("trait") == "std::clone::Clone" and imp["self_ty"].get("path") == rec["record"])
         for b, i, st in f.assigns():
             if own_clone:
                 break   # the record's derived Clone impl itself; *calling* it is what the rule forbids (below)
             rv = st["rv"]
-            if rv["k"] == "agg" and rv.get("agg") == "adt" and rv.get("path") == "protected::int::InternalData":
+            if rv["k"] == "agg" and rv.get("agg") == "adt" and rv.get("path") == rec["record"]:
                 n_rec += 1
                 fields = dict(zip(rv.get("fields", []), rv["ops"]))
                 txt = {k: deep_repr(expr_of_operand(f, v)) for k, v in fields.items()}
-                ok = txt.get("lm", "").endswith("Unlocked{}") and txt.get("pm", "").endswith("ReadWrite{}")
+                lmv, pmv = txt.get(rec["lock_field"], ""), txt.get(rec["protect_field"], "")
+                ok = lmv.endswith("Unlocked{}") and pmv.endswith("ReadWrite{}")
                 rep.ob("RECORD", "%s|record created as (Unlocked, ReadWrite)%s" % (f.path, tag), ok,
-                       "InternalData literal with lm=%s pm=%s" % (txt.get("lm"), txt.get("pm")), loc="%s:%s" % (f.file, _ln(st)))
+                       "record literal with lock mode %s, protect mode %s" % (lmv, pmv), loc="%s:%s" % (f.file, _ln(st)))
         for c in f.calls():
             if f.blocks[c.bb]["cleanup"]:
                 continue
-            if c.path == "std::clone::Clone::clone" and "InternalData<" in (c.f.get("self_ty") or c.full):
+            if c.path == "std::clone::Clone::clone" and (RN + "<") in (c.f.get("self_ty") or c.full):
                 rep.violation("RECORD", "%s|record cloned%s" % (f.path, tag),
                               "the storage record (with its recorded lock/protect mode) is cloned: %s; the copy's pages are fresh "
                               "(read-write, unlocked) whatever the record says" % c.full[:90], loc=c.loc())
-            if c.path in ("std::mem::replace", "std::mem::take") and "InternalData<" in c.full:
+            if c.path in ("std::mem::replace", "std::mem::take") and (RN + "<") in c.full:
                 rep.violation("RECORD", "%s|record moved out%s" % (f.path, tag), "record moved out of its handle by %s" % c.path, loc=c.loc())
-    rep.ob("RECORD", "record literals exist" + tag, n_rec >= 1, "%d InternalData literal(s) in the crate" % n_rec)
+    rep.ob("RECORD", "record literals exist" + tag, n_rec >= 1, "%d storage-record literal(s) in the crate" % n_rec)
 
 
 def _ln(st):
